@@ -19,7 +19,7 @@ modelled exactly as written:
                            caught — by what the Rust caller of `execute_instructions` does
                            (`pop_frame` + `truncate_registers`, or `pop_frame` + propagate), and so
                            on down the stack of pending Rust callers
-* `enter`                = prologue of the host entry points `run`, `call_and_run_function`,
+* `enter` / `enterOp`    = prologue of the host entry points `run`, `call_and_run_function` /
                            `run_unary_op`/`run_binary_op`/`run_read_op`/`run_write_op`
                            (+ `call_overridden_op_N`, `get_overridden_op_result`)
 * `nested`               = `run_overridden_comparison_op` and the `@next` arm of `run_iterator_next`
@@ -93,10 +93,12 @@ inductive Exit where
 /-- One pending Rust caller. -/
 inductive Cont where
   | loop (x : Exit)
-  /-- a native function called with `call_info.frame_base = fb`; `host = some rr` when it was called
-      directly by a host entry whose result register is `rr` (`call_and_run_function` /
-      `call_overridden_op_N` from `run_*_op`), `none` when called by a `Call` instruction -/
-  | native (fb : Nat) (host : Option Nat)
+  /-- a native function called with `call_info.frame_base = fb`; `host = some (rr, t)` when it was
+      called directly by a host entry whose result register is `rr` — `t = true` for
+      `call_and_run_function`, which (since fix 5247d9c) runs `truncate_registers(rr)` before it
+      propagates an error of `call_callable`; `t = false` for `call_overridden_op_N` from `run_*_op`,
+      whose `?` returns without truncating (F-C07-3) — and `none` when called by a `Call` instruction -/
+  | native (fb : Nat) (host : Option (Nat × Bool))
   /-- `run_import` of module `m`; `saved` = the importer's exports -/
   | importing (m : Nat) (saved : List Nat)
   deriving DecidableEq, Repr, Inhabited
@@ -120,7 +122,7 @@ inductive Callee where
 
 /-- Events. The first group (`newFrame` … `importBegin`) is meaningful while an interpreter loop is running
 (head of `conts` is `loop`), `nativeRet`/`importEnd` while native/host code is running; host entries
-(`enter`, `enterDirect`) and nested loops (`nested`) can be started in both modes. -/
+(`enter`, `enterOp`, `enterDirect`) and nested loops (`nested`) can be started in both modes. -/
 inductive Ev where
   /-- `NewFrame { register_count }` -/
   | newFrame (n : Nat)
@@ -157,6 +159,10 @@ inductive Ev where
   /-- host entry point that goes through `call_callable`: pushes `pre` registers (result register
       first; `run` has `pre = 0`), then the frame base and `args` arguments -/
   | enter (pre args : Nat) (c : Callee)
+  /-- `run_unary/binary/read/write_op` whose operation goes through `call_overridden_op_N` +
+      `call_callable`: same prologue as `enter` (`pre` = 2/3/3/4 result+operand registers), but a
+      failure of `call_callable` returns through `?` without truncating (F-C07-3) -/
+  | enterOp (pre args : Nat) (c : Callee)
   /-- `run_*_op` whose operation is performed natively: pushes `pre` registers; `ok = false` is the
       early `?` return -/
   | enterDirect (pre : Nat) (ok : Bool)
@@ -273,8 +279,10 @@ def inLoop (st : St) : Bool :=
 /-- Host entry through `call_callable`. Host entries are started by native/host code, and also by
 single instructions (`StringPush` → `run_unary_op(Display)`, `Size`, `Debug`, …); in the latter case
 a failing entry makes the instruction fail, i.e. the error is raised in the loop below (`raiseGo` is
-a no-op when the pending caller is native/host code: the error is simply handed to it). -/
-def enter (pre args : Nat) (c : Callee) (st : St) : St :=
+a no-op when the pending caller is native/host code: the error is simply handed to it).
+`truncOnErr`: whether the entry runs `truncate_registers(result_register)` before it propagates an
+error of `call_callable` (`call_and_run_function` since fix 5247d9c: yes; `run_*_op`: no). -/
+def enterWith (truncOnErr : Bool) (pre args : Nat) (c : Callee) (st : St) : St :=
   let vm := st.vm
   let rr := nextRegister vm                       -- result register (for `run`: the frame base)
   let vm1 := { vm with regs := vm.regs + pre }     -- result register and operands
@@ -282,8 +290,14 @@ def enter (pre args : Nat) (c : Callee) (st : St) : St :=
   let vm2 := { vm1 with regs := vm1.regs + 1 + args }
   match c with
   | .koto argRegs => ⟨callKoto fb argRegs true vm2, .loop (.truncate rr) :: st.conts⟩
-  | .native => ⟨vm2, .native fb (some rr) :: st.conts⟩
-  | .fail => raiseGo st.conts true vm2            -- `call_callable(..)?` returns early
+  | .native => ⟨vm2, .native fb (some (rr, truncOnErr)) :: st.conts⟩
+  | .fail => raiseGo st.conts true (if truncOnErr then truncate rr vm2 else vm2)
+
+/-- `run(chunk)` and `call_and_run_function` -/
+def enter (pre args : Nat) (c : Callee) (st : St) : St := enterWith true pre args c st
+
+/-- `run_*_op` through `call_overridden_op_N` -/
+def enterOp (pre args : Nat) (c : Callee) (st : St) : St := enterWith false pre args c st
 
 /-- `run_*_op` whose operation is performed natively (no `call_callable`). -/
 def enterDirect (pre : Nat) (ok : Bool) (st : St) : St :=
@@ -306,6 +320,7 @@ def nested (args argRegs : Nat) (st : St) : St :=
 def step (ev : Ev) (st : St) : St :=
   match ev with
   | .enter pre args c => enter pre args c st
+  | .enterOp pre args c => enterOp pre args c st
   | .enterDirect pre ok => enterDirect pre ok st
   | .nested args argRegs => nested args argRegs st
   | _ =>
@@ -356,13 +371,17 @@ def step (ev : Ev) (st : St) : St :=
         if ok then
           let vm1 := nativeOk fb st.vm
           match host with
-          | some rr => ⟨truncate rr vm1, conts⟩
+          | some rr => ⟨truncate rr.1 vm1, conts⟩
           | none => ⟨vm1, conts⟩
         else
-          -- `host = some _`: `call_callable(..)?` returns early, nothing is undone, the error goes to
-          -- the entry's caller; `host = none`: the `Call` instruction fails. Either way the error is
-          -- raised in the loop below if there is one, else handed to the native/host caller.
-          raiseGo conts true st.vm
+          -- `host = some (rr, true)`: `call_and_run_function` truncates to its result register and
+          -- returns the error (fix 5247d9c); `host = some (_, false)`: `call_callable(..)?` in
+          -- `call_overridden_op_N` / `run_*_op` returns early, nothing is undone (F-C07-3);
+          -- `host = none`: the `Call` instruction fails. In every case the error is then raised in
+          -- the loop below if there is one, else handed to the native/host caller.
+          match host with
+          | some rr => raiseGo conts true (if rr.2 then truncate rr.1 st.vm else st.vm)
+          | none => raiseGo conts true st.vm
       | _ => st
     | .importEnd ok =>
       match st.conts with
@@ -399,9 +418,9 @@ instance (st0 st : St) : Decidable (Exited st0 st) :=
 |---|---|---|---|
 | `run(chunk)` | 0 | 0 | `koto 0` (frame base = instance register, `truncate_registers(frame_base)`) |
 | `call_and_run_function(f, args)` | 1 (+ temp-tuple contents) | n | `koto _` / `native` / `fail` |
-| `run_unary_op` via `call_overridden_op_1` | 2 | 0 | any |
-| `run_binary_op` / `run_read_op` via `call_overridden_op_2` | 3 | 1 | any |
-| `run_write_op` via `call_overridden_op_3` | 4 | 2 | any |
+| `run_unary_op` via `call_overridden_op_1` | `enterOp` 2 | 0 | any |
+| `run_binary_op` / `run_read_op` via `call_overridden_op_2` | `enterOp` 3 | 1 | any |
+| `run_write_op` via `call_overridden_op_3` | `enterOp` 4 | 2 | any |
 | the same four, operation performed natively | `enterDirect pre ok` | | |
 | `run_tests` | a sequence of `call_and_run_function` brackets, stopping at the first `Err` | | |
 -/
